@@ -85,6 +85,8 @@ type c26Case struct {
 	ExtraHeaders  bool    `json:"extra_headers,omitempty"`
 	Ops           []c26Op `json:"ops"`
 	StopAfterLast int64   `json:"stop_after_last,omitempty"` // ns between the last op and Stop
+	// Conc, when set, selects the concurrent-enqueue shape (c26_concurrent_test.go); the fields above are unused then.
+	Conc *c26Conc `json:"conc,omitempty"`
 }
 
 var c26Keys = []string{"k1", "k2", "0123456789abcdef0123456789abcdef"}
@@ -147,6 +149,10 @@ func genC26Resp(t *rapid.T, label string) *c26Resp {
 
 func genC26(t *rapid.T) c26Case {
 	c := c26Case{}
+	if rapid.IntRange(0, 7).Draw(t, "concurrent") == 3 {
+		c.Conc = genC26Conc(t)
+		return c
+	}
 	big := rapid.IntRange(0, 9).Draw(t, "big") == 0 // cases about the 1 MB / 5 MB limits
 	calm := rapid.IntRange(0, 3).Draw(t, "calm") == 0 // no scripted faults: every request is judged for timing
 	c.Servers = rapid.IntRange(1, 3).Draw(t, "servers")
@@ -776,6 +782,10 @@ func c26Perturbing(r c26Resp) bool {
 
 func execC26(c c26Case) vkit.Result {
 	var res vkit.Result
+	if c.Conc != nil {
+		execC26Conc(c, &res)
+		return res
+	}
 	if c.Servers < 1 || c.MaxBatch < 1 || c.BatchTimeout < 4 || c.SendTimeout < 1 {
 		res.Class("invalid-case")
 		return res
@@ -1059,14 +1069,14 @@ func TestC26(t *testing.T) {
 			"with generated enqueue instants aimed at the stale-dispatch ticker grid, against the real DirectTransmission inside a synctest bubble over an in-memory net.Pipe network; " +
 			"answers are scripted per batch (ok, per-event errors, short/undecodable bodies, 4xx/5xx, 429/503 with many Retry-After forms, time-outs, slow answers, hang-ups, dead hosts). " +
 			"Judged on the requests the servers decoded with an independent msgpack decoder, virtual arrival times and the queued_items updown. " +
-			"Non-trivial: at least 2 destinations and at least one scripted failure answer actually served. Distinct = distinct case JSON.",
+			"Non-trivial: at least 2 destinations and at least one scripted failure answer actually served; for the concurrent-enqueue shape: at least one round in which all goroutines met at the barrier on a fresh destination. Distinct = distinct case JSON.",
 		Assumptions: []string{
 			"testing/synctest virtual time and net.Pipe stand in for the wall clock and TCP (exact timing; real net/http client and server code runs)",
 			"an event whose canonical msgpack size is within 64 bytes below 1,000,000 may be dropped or sent (refinery's own encoding is a few bytes longer than the canonical one)",
 			"the 5 MB limit is judged on the uncompressed request body; a compressed wire body is only classified",
 			"a batch's dispatch instant is the arrival of its first attempt; requests to a destination that was answered with a scripted delay/429/503/time-out are excused from the timing bound (sub-batches of one dispatch are sent sequentially)",
 			"a second attempt is accepted only after 429/503/time-out (or a hang-up, don't-care); the converse (that a retry happens) is not asserted",
-			"events are enqueued from a single goroutine",
+			"scripted-fault histories enqueue from a single goroutine; 1 case in 8 is the concurrent shape: 2-8 real goroutines, released together by a spin barrier inside the injected Clock.Now() (called by EnqueueEvent right before the batch lookup), enqueue the first events of fresh destinations; only the final accounting after Stop is judged there",
 		},
 		Gen:  genC26,
 		Exec: execC26,
